@@ -261,8 +261,6 @@ pub fn run(report: &Report) -> i32 {
         report.cases(6000, 300_000),
         case,
     );
-    if report.wants("c12b") {
-        super::c12b::run_sub(report);
-    }
+    super::c12b::run_sub(report);
     report.finish("generated-input search (proptest): trace oracles on the real connection plus controller call-history model")
 }
